@@ -612,6 +612,9 @@ impl Model {
     pub fn on_cancel(&mut self, tid: u128, reply: &Reply) -> Result<(), Violation> {
         let live = self.live_idx(tid);
         self.check_handle(tid, live.is_some(), reply)?;
+        // (no handle was handed out — possible for a transaction in limbo — means the operation was
+        // never applied: nothing was cancelled or reconfigured)
+        let live = if matches!(reply, Reply::Handle(Some(_))) { live } else { None };
         if let Some(i) = live {
             self.txs[i].sc = true;
             self.txs[i].rc = true;
@@ -622,6 +625,9 @@ impl Model {
     pub fn on_cancel_retrans(&mut self, tid: u128, reply: &Reply) -> Result<(), Violation> {
         let live = self.live_idx(tid);
         self.check_handle(tid, live.is_some(), reply)?;
+        // (no handle was handed out — possible for a transaction in limbo — means the operation was
+        // never applied: nothing was cancelled or reconfigured)
+        let live = if matches!(reply, Reply::Handle(Some(_))) { live } else { None };
         if let Some(i) = live {
             self.txs[i].sc = true;
             self.invalidate_wait();
@@ -631,6 +637,9 @@ impl Model {
     pub fn on_configure(&mut self, tid: u128, rto_ms: u64, n: u32, last_ms: u64, reply: &Reply) -> Result<(), Violation> {
         let live = self.live_idx(tid);
         self.check_handle(tid, live.is_some(), reply)?;
+        // (no handle was handed out — possible for a transaction in limbo — means the operation was
+        // never applied: nothing was cancelled or reconfigured)
+        let live = if matches!(reply, Reply::Handle(Some(_))) { live } else { None };
         if let Some(i) = live {
             let (ivs, fin) = configured_schedule(self.tcp, rto_ms, n, last_ms);
             let tx = &mut self.txs[i];
